@@ -3,7 +3,7 @@ from engine.core import Unit
 UNITS = [
     Unit(uid="U26.1.sse8", prop="C26", harness="harness/c26_sse.c", entry="h_sse", mode="plain",
          functions=["psnr_calculations [8-bit branch]"], keep_bodies=["psnr_calculations"], unwind=5, min_obligations=50,
-         cover_functions=[], timeout=300, mem_gb=16, backend="cadical",
+         cover_functions=[], timeout=1200, mem_gb=16, backend="cadical",
          kind="bounded", bound="visible picture 2x2 luma (1x1 chroma, 4:2:0), padding <= 1, origins <= 1, strides <= 4, all "
                               "sample values symbolic, source = input or saved (temporally filtered) picture, recon = "
                               "reference or recon picture",
